@@ -152,10 +152,25 @@ func (e *linEnv) lenOf(buf ssa.Value) *linExpr {
 		if hi == nil {
 			break
 		}
+		res := hi
 		if t.Low != nil {
-			return hi.add(e.lin(t.Low), -1)
+			res = hi.add(e.lin(t.Low), -1)
 		}
-		return hi
+		if e.subst == nil && t.High != nil {
+			// wherever the length of x[lo:hi] is spoken of, the slice expression has been evaluated: hi - lo >= 0 (its
+			// own bounds are obligations of their own)
+			nf := linFact{lf: newLin().add(res, -1), why: "length of a slice expression"}
+			dup := false
+			for _, d := range e.defFacts {
+				if d.why == nf.why && d.lf.String() == nf.lf.String() {
+					dup = true
+				}
+			}
+			if !dup {
+				e.defFacts = append(e.defFacts, nf)
+			}
+		}
+		return res
 	case *ssa.MakeSlice:
 		return e.lin(t.Len)
 	case *ssa.Call:
@@ -2017,6 +2032,13 @@ func (bp *boundsProver) proveInductive(s *boundSite) bool {
 		goal := s.goalOf(env)
 		env.subst = nil
 		if !env.entailsLin(facts, goal) {
+			if os.Getenv("BPDEBUG") != "" {
+				var fs []string
+				for _, ft := range facts {
+					fs = append(fs, ft.lf.String()+"<=0")
+				}
+				fmt.Fprintf(os.Stderr, "BPDEBUG inductive %s: edge %d->%d fails: need %s<=0; facts %v\n", s.Fn.Name(), pred.Index, h.Index, goal, fs)
+			}
 			return false
 		}
 	}
